@@ -49,8 +49,8 @@ MAGIC = 0x514649FB
 # ----------------------------------------------------------------------------- content helpers
 def plain_cluster(seed: int, cs: int) -> bytes:
     """compressible but position-dependent plaintext of one cluster"""
-    base = bytes(((k // 3) * 5 + seed) & 0xFF for k in range(768))
-    buf = bytearray((base * (cs // 768 + 1))[:cs])
+    base = bytes(((k // 3) * 5 + seed) & 0xFF for k in range(96))
+    buf = bytearray((base * (cs // 96 + 1))[:cs])
     for b in range(0, cs, 512):
         buf[b:b + 6] = struct.pack(">HI", seed & 0xFFFF, b // 512)
     return bytes(buf)
@@ -91,6 +91,8 @@ def layout(case):
             comp = deflate_raw(plain)
             coff = c["coffset"]
             nb = (coff + len(comp) - 1) // 512 - coff // 512 + 1
+            if nb > 1 << (cb - 8) or len(comp) >= cs:
+                raise ValueError("generator: compressed cluster does not fit its descriptor")
             e = COMPRESSED | coff | ((nb - 1) << (70 - cb))
             chunks[coff] = comp
             bm = 0
@@ -360,7 +362,11 @@ def gen_case(rng, tier, bigbuf=False):
             e["seed"] = rng.randrange(1 << 16)
             # compressed data lives in the image file at any byte offset (often straddling 512-byte sectors)
             base = al.take(2, where=where if where != "4g" else "4g+", gap=gap)
-            e["coffset"] = base + rng.weighted([(0, 1), (rng.randrange(0, 512), 2), (rng.randrange(0, max(1, cs // 4)), 2)])
+            clen = len(deflate_raw(plain_cluster(e["seed"], cs)))
+            r = rng.weighted([(0, 1), (rng.randrange(0, 512), 2), (rng.randrange(0, max(1, cs // 4)), 2)])
+            # the descriptor has cluster_bits - 8 bits for the sector count: the stream must fit
+            room = 512 * (1 << (cb - 8)) - clen
+            e["coffset"] = base + (r if r % 512 <= room else r - r % 512 + rng.randrange(0, room + 1))
         elif ext:
             e["t"] = "ext"
             hostless = rng.chance(0.15)
@@ -586,7 +592,7 @@ class Qcow2Suite(Suite):
             if kind in ("raw", "rawtail"):
                 model = f"qcow2_read im (fuel_for im {Z(b)}) {Z(a)} {Z(b)}"
             else:
-                model = "Err"
+                model = "(@Err (list seg))"
             items.append(f"({model}, {spec})")
         return f"let im := {coq_image(case, lay)} in (open_params im, [" + "; ".join(items) + "])"
 
